@@ -186,6 +186,13 @@ class Evaluator:
         self.inlined: set = set()
         self._np = deps.import_dep("numpy")
         self._math = deps.import_dep("math")
+        # opaque calls whose output length equals the length of argument k (dependency contracts, one line each)
+        self.shape_table: Dict[str, int] = {
+            "dep:uts.gradient.cfd": 0,      # first derivative: one value per sample
+            "dep:uts.gradient.csd": 0,      # second derivative: one value per sample
+        }
+        # opaque dependency calls that return a scalar although their arguments are arrays
+        self.scalar_deps = {"dep:uts.thresholding.isodata"}
 
     # -- symbols -------------------------------------------------------------
     def symbol(self, name: str, array: bool = False) -> Rat:
@@ -243,6 +250,12 @@ class Evaluator:
             lens = [self.length_of(x) for x in a.args if x.is_array()]
             if lens and all(lens[0].equals(l) for l in lens[1:]):
                 return lens[0]
+        if a.name in self.shape_table and len(a.args) > self.shape_table[a.name]:
+            arg = a.args[self.shape_table[a.name]]
+            inner = arg.atoms()
+            if len(inner) == 1 and inner[0].name == "vec" and arg.equals(Rat.from_atom(inner[0])):
+                return self.length_of(inner[0].args[0])
+            return self.length_of(arg)
         return anf.opaque("len", Rat.from_atom(a), array=False)
 
     # -- coercions -----------------------------------------------------------
@@ -730,7 +743,8 @@ class Frame:
             for u, w in ((a, b), (b, a)):
                 if isinstance(u, Obj) and u.tag == "none" and isinstance(w, Rat):
                     ats = w.atoms()
-                    bare = len(ats) == 1 and ats[0].kind == "sym" and w.equals(Rat.from_atom(ats[0]))
+                    bare = len(ats) == 1 and w.equals(Rat.from_atom(ats[0])) and (
+                        ats[0].kind == "sym" or ats[0].name.startswith(("slot:", "call:", "dep:", "method:", "item", "np.", "py.")))
                     if not bare:
                         return FALSE if pos else TRUE      # a computed number is never None
             if isinstance(a, Obj) and isinstance(b, Obj) and a.tag in ("enum", "none", "str") and b.tag in ("enum", "none", "str"):
